@@ -52,6 +52,8 @@ CONSTANTS MapOrder,     \* sequence of map ids (strings); MapOrder[1] is the roo
           Phased,       \* BOOLEAN: build the tree first, `Seal`, then only access it
           Resnap,       \* BOOLEAN: the map may change after get_static_map(), which may then be called again
           Staging,      \* BOOLEAN: resources may be moved out of a staging map into the main tree (see SetItem)
+          KeepSnap,     \* Resnap only: the program keeps (and still reads) an old snapshot through that many changes
+                        \* of the tree; with the next change it lets go of it (0: it never looks at an old snapshot)
           KindChoices,  \* set of functions [Hd -> Kinds]: what load() returns
           ClsChoices,   \* set of functions [Names -> NameClasses]: lexical class of each name
           ImplicitMapsLinked, ClearAllLayers, SetItemPopsAllLayers, StaticSlotsUnmangled, CacheTestsFlag,
@@ -63,17 +65,20 @@ VARIABLES maps, layers, parent, key,          \* ResourceMap tables and back-lin
           cls,                                \* name -> lexical class (fixed)
           sealed,                             \* Phased only: the build phase is over
           snapRoot, sslot, sdict, shn,        \* the snapshot: mirrored root, slots, instance dict, _handle_names
+          sage,                               \* changes of the tree since the snapshot was taken (0: it is fresh)
+          smir,                               \* ghost: what each name of each mirrored map denoted when it was taken
           ret,                                \* outcome of the last call <<kind, id, serial>>
           loadedNow,                          \* ghost: handles whose load() ran during the last call
           abs,                                \* ghost: the abstract tree, map -> (name -> <<"h"|"m", node>>)
           stale,                              \* ghost: places <<map, name, node>> a later assignment of node superseded
           loads                               \* ghost: loads since the last clear, per handle
 
-vars == <<maps, layers, parent, key, cached, value, gen, kind, armed, cls, sealed, snapRoot, sslot, sdict, shn,
-          ret, loadedNow, abs, stale, loads>>
+vars == <<maps, layers, parent, key, cached, value, gen, kind, armed, cls, sealed, snapRoot, sslot, sdict, shn, sage,
+          smir, ret, loadedNow, abs, stale, loads>>
 tree == <<maps, layers, parent, key, abs, stale>>
 cache == <<cached, value, gen, loads, armed>>
-snap == <<snapRoot, sslot, sdict, shn>>
+stabs == <<snapRoot, sslot, sdict, shn, smir>> \* the snapshot object(s): nothing ever changes them
+snap == <<stabs, sage>>
 fixed == <<kind, cls>>
 
 None == "none"
@@ -126,15 +131,19 @@ Init == /\ maps = [m \in M |-> Empty] /\ layers = [m \in M |-> <<Empty>>]
         /\ cached = [h \in Hd |-> FALSE] /\ value = [h \in Hd |-> 0] /\ gen = [h \in Hd |-> 0]
         /\ kind \in KindChoices /\ cls \in ClsChoices /\ armed = {}
         /\ sealed = FALSE /\ snapRoot = None
-        /\ sslot = [m \in M |-> Empty] /\ sdict = [m \in M |-> Empty] /\ shn = [m \in M |-> {}]
+        /\ sslot = [m \in M |-> Empty] /\ sdict = [m \in M |-> Empty] /\ shn = [m \in M |-> {}] /\ sage = 0
+        /\ smir = [m \in M |-> [n \in Names |-> Absent]]
         /\ ret = NoRet /\ loadedNow = {}
         /\ abs = [m \in M |-> Empty] /\ stale = {} /\ loads = [h \in Hd |-> 0]
 
-\* the tree is not changed once it is sealed; nor once it is mirrored, unless Resnap — then a change discards the
-\* snapshot (an older snapshot object is not required to follow, nor to stay as it was: it is no longer looked at)
+\* the tree is not changed once it is sealed; nor once it is mirrored, unless Resnap.  A snapshot is a frozen mirror:
+\* the program may keep reading the one it has while the map moves on (through KeepSnap changes, an exploration
+\* bound: with the next one it lets go of it), and it answers as on the day it was taken
 Mutable == ~sealed /\ (Resnap \/ snapRoot = None)
-DropSnap == /\ snapRoot' = None /\ shn' = [m \in M |-> {}]
+DropSnap == /\ snapRoot' = None /\ shn' = [m \in M |-> {}] /\ sage' = 0
             /\ sslot' = [m \in M |-> Empty] /\ sdict' = [m \in M |-> Empty]
+            /\ smir' = [m \in M |-> [n \in Names |-> Absent]]
+AgeSnap == IF snapRoot # None /\ sage < KeepSnap THEN sage' = sage + 1 /\ UNCHANGED stabs ELSE DropSnap
 Usable == Phased => sealed
 
 ----------------------------------------------------------------------------
@@ -181,15 +190,15 @@ Walk(t, cur, acur, p, avoid) ==
 
 SetItem(m, p, node) ==
     /\ "set" \in Ops /\ Mutable /\ m \in Builders
-    \* generated domain: the assignment creates no cycle, and the value is an object that is not in any map right
-    \* now (one parent pointer cannot describe two places) — or, with Staging, a direct child of a staging map
-    \* (a root-level map outside the main tree) that is moved into the main tree: it then sits in two maps, its
-    \* back-links follow the latest assignment, the place in the staging map becomes `stale`.  No node is ever
-    \* twice inside one tree: a map with stale places below it is not assigned anywhere.
+    \* generated domain: the assignment creates no cycle, and the value is
+    \*  (free)  an object that is not in any map right now (one parent pointer cannot describe two places), or
+    \*  (moved) with Staging, a direct child of a staging map (a root-level map outside the main tree) that is moved
+    \*          into the main tree: it then sits in two maps, its back-links follow the latest assignment, the place
+    \*          in the staging map becomes `stale`, or
+    \*  (again) an object the assignment leaves in one place: stored once more under the path where it is already
+    \*          (nothing changes, its back-links included), or below a key part that evicts it from where it was.
+    \* No node is ever twice inside one tree: a map with stale places below it is not assigned anywhere.
     /\ node # Root /\ node # m /\ (node \in M => m \notin Sub(node))
-    /\ \/ ~Held(node)
-       \/ /\ Staging /\ m \in Sub(Root) /\ Cardinality(Places(node)) = 1
-          /\ \A pl \in Places(node) : pl[1] # Root /\ ~Held(pl[1])
     /\ (node \in M => \A t \in stale : t[1] \notin Sub(node))
     /\ LET w == Walk([mp |-> maps, ly |-> layers, pa |-> parent, ky |-> key, ab |-> abs], m, m, Front(p), {m, node})
            t == w.t
@@ -199,20 +208,26 @@ SetItem(m, p, node) ==
            mp2 == IF node \in M THEN [t.mp EXCEPT ![tg] = Put(@, l, node)] ELSE [t.mp EXCEPT ![tg] = Drop(@, l)]
            ly2 == IF node \in M THEN PopHandle(t.ly, tg, l) ELSE [t.ly EXCEPT ![tg][1] = Put(@, l, node)]
        IN /\ tg # None
+          /\ (node \in M => tg \notin Sub(node))
+          /\ \/ ~Held(node)
+             \/ /\ Staging /\ m \in Sub(Root) /\ Cardinality(Places(node)) = 1
+                /\ \A pl \in Places(node) : pl[1] # Root /\ ~Held(pl[1])
+             \/ \A pl \in M \X Names : PlaceIn(mp2, ly2, <<pl[1], pl[2], node>>) =>
+                                           pl = <<tg, l>> \/ <<pl[1], pl[2], node>> \in stale
           /\ maps' = mp2 /\ layers' = ly2
           /\ parent' = Forget([t.pa EXCEPT ![node] = tg], mp2, ly2)
           /\ key' = Forget([t.ky EXCEPT ![node] = l], mp2, ly2)
           /\ abs' = [t.ab EXCEPT ![w.atgt] = Put(@, l, <<IF node \in M THEN "m" ELSE "h", node>>)]
-          /\ stale' = KeepStale(stale \cup {<<pl[1], pl[2], node>> : pl \in Places(node)}, mp2, ly2)
+          /\ stale' = KeepStale((stale \cup {<<pl[1], pl[2], node>> : pl \in Places(node)}) \ {<<tg, l, node>>}, mp2, ly2)
     /\ ret' = NoRet /\ loadedNow' = {}
-    /\ DropSnap /\ UNCHANGED <<cache, fixed, sealed>>
+    /\ AgeSnap /\ UNCHANGED <<cache, fixed, sealed>>
 
 \* what DirectoryResourcePopulator does for nest_on_conflict: handles.maps.insert(0, {})
 PushLayer(m) ==
     /\ "push" \in Ops /\ Mutable /\ m \in Builders /\ Len(layers[m]) < MaxLayers
     /\ layers' = [layers EXCEPT ![m] = <<Empty>> \o @]
     /\ ret' = NoRet /\ loadedNow' = {}
-    /\ DropSnap /\ UNCHANGED <<maps, parent, key, abs, stale, cache, fixed, sealed>>
+    /\ AgeSnap /\ UNCHANGED <<maps, parent, key, abs, stale, cache, fixed, sealed>>
 
 \* ResourceMap.clear: children whose parent is this map are detached, then both tables are emptied
 Clear(m) ==
@@ -230,7 +245,7 @@ Clear(m) ==
     /\ abs' = [abs EXCEPT ![m] = Empty]
     /\ stale' = {t \in stale : t[1] # m}
     /\ ret' = NoRet /\ loadedNow' = {}
-    /\ DropSnap /\ UNCHANGED <<cache, fixed, sealed>>
+    /\ AgeSnap /\ UNCHANGED <<cache, fixed, sealed>>
 
 Seal == /\ Phased /\ ~sealed /\ sealed' = TRUE
         /\ ret' = NoRet /\ loadedNow' = {}
@@ -332,12 +347,17 @@ Snapshot(m) ==
        THEN /\ snapRoot' = m
             /\ sslot' = [x \in M |-> IF x \in Sub(m) THEN [n \in {n \in AllNames(x) : InSlot(x, n)} |-> Entry(x, n)] ELSE Empty]
             /\ sdict' = [x \in M |-> IF x \in Sub(m) THEN [n \in {n \in AllNames(x) : ~InSlot(x, n)} |-> Entry(x, n)] ELSE Empty]
-            /\ shn' = [x \in M |-> IF x \in Sub(m) THEN DOMAIN Vis(x) ELSE {}]
+            /\ shn' = [x \in M |-> IF x \in Sub(m) THEN DOMAIN Vis(x) ELSE {}] /\ sage' = 0
+            /\ smir' = [x \in M |-> [n \in Names |-> IF x \in Sub(m) THEN GetDen(x, <<n>>) ELSE Absent]]
             /\ Plain(<<"snap", m, 0>>)
        ELSE /\ Plain(<<"exc", "AttributeError", 0>>) /\ UNCHANGED snap
     /\ UNCHANGED <<tree, fixed, sealed>>
 
-SnapNodes == IF snapRoot = None THEN {} ELSE Sub(snapRoot)
+\* the nodes of the snapshot, by its own tables (the map may have moved on); node x mirrors what map x was
+SSubs(x) == {e[2] : e \in {e \in Range(sslot[x]) \cup Range(sdict[x]) : e[1] = "m"}}
+RECURSIVE SClosure(_, _)
+SClosure(S, k) == IF k = 0 THEN S ELSE SClosure(S \cup UNION {SSubs(x) : x \in S}, k - 1)
+SnapNodes == IF snapRoot = None THEN {} ELSE SClosure({snapRoot}, Len(MapOrder))
 \* object.__getattribute__(self, n)
 SLookup(x, n) == IF n \in DOMAIN sslot[x] THEN sslot[x][n]
                  ELSE IF n \in DOMAIN sdict[x] THEN sdict[x][n] ELSE Absent
@@ -438,17 +458,22 @@ SameObject ==
 ValueStable == [][\A h \in Hd : (cached[h] /\ cached'[h]) => value'[h] = value[h]]_vars
 
 \* ---- C17 ----
-\* same tree, same handle objects; names absent from the map are absent from the snapshot
+\* the ghost is right: a snapshot just taken is taken of the map as it is
+FreshMirror == sage = 0 => \A x \in SnapNodes, n \in Names : smir[x][n] = GetDen(x, <<n>>)
+\* same tree, same handle objects; names absent from the map are absent from the snapshot — the map as it was when
+\* the snapshot was taken: the snapshot is a frozen mirror, whatever happens to the map afterwards
 MirrorsMap ==
-    \A x \in SnapNodes : /\ \A n \in Names : SLookup(x, n) = GetDen(x, <<n>>)
-                         /\ shn[x] = DOMAIN Vis(x)
+    \A x \in SnapNodes : /\ \A n \in Names : SLookup(x, n) = smir[x][n]
+                         /\ shn[x] = {n \in Names : smir[x][n][1] = "h"}
                          /\ DOMAIN sslot[x] \cap DOMAIN sdict[x] = {}
+StaysAsTaken == [][sage' > 0 => UNCHANGED stabs]_vars
 \* every consistent tree can be mirrored
 SnapshotSucceeds == [][\A m \in M : Snapshot(m) => ret'[1] = "snap"]_vars
-\* item / attribute access yield the resource the map itself yields (handle() of the same handle)
+\* item / attribute access yield the resource the map itself yields (yielded, for an old snapshot): handle() of the
+\* same handle
 SnapshotReadsThrough ==
     [][\A x \in M, n \in Names : (SItem(x, n) \/ SAttr(x, n)) =>
-          LET d == GetDen(x, <<n>>) IN
+          LET d == smir[x][n] IN
           CASE d[1] = "h" -> (ret'[1] = "val" /\ ret'[2] = d[2]) \/ ret' = <<"exc", "LoadFault", 0>>
             [] d[1] = "m" -> ret' = <<"snap", d[2], 0>>
             [] OTHER -> ret'[1] = "exc"]_vars
